@@ -6,6 +6,7 @@ import (
 
 	"mosn.io/api"
 	"mosn.io/mosn/pkg/protocol/xprotocol/bolt"
+	"mosn.io/mosn/pkg/protocol/xprotocol/boltv2"
 	"mosn.io/mosn/pkg/stream"
 	"mosn.io/mosn/pkg/types"
 	"mosn.io/mosn/pkg/zzverif/verif"
@@ -115,3 +116,98 @@ func (h zzHdr) Range(f func(k, v string) bool) {
 }
 func (h zzHdr) Clone() api.HeaderMap { c := zzHdr{}; for k, v := range h { c[k] = v }; return c }
 func (h zzHdr) ByteSize() uint64     { return 0 }
+
+// zzDispatchRun is the body shared by the variants below: nreq requests of
+// the given codec, the wire cut at ncut (sorted) positions into ncut+1 reads.
+func zzDispatchRun(proto api.XProtocol, name api.ProtocolName, mk func(id uint32, svc string, body []byte) api.XFrame, nreq, ncut int) {
+	ctx := zzStreamCtx()
+	srv := &zzDServer{}
+	sc := &streamConn{ctx: ctx, netConn: zzTConn{}, ctxManager: stream.NewContextManager(ctx),
+		protocol: proto, protocolName: name, serverCallbacks: srv}
+	sc.ctxManager.Next()
+	type reqT struct {
+		id   uint32
+		svc  string
+		body []byte
+	}
+	var reqs []reqT
+	var wire []byte
+	var ends []int
+	for i := 0; i < nreq; i++ {
+		r := reqT{id: verif.U32("id"), svc: verif.Str("service", 1), body: verif.Bytes("body", 2)}
+		reqs = append(reqs, r)
+		enc, err := proto.Encode(zzStreamCtx(), mk(r.id, r.svc, append([]byte(nil), r.body...)))
+		verif.Assume(err == nil)
+		wire = append(wire, enc.Bytes()...)
+		ends = append(ends, len(wire))
+	}
+	rb := buffer.NewIoBuffer(16)
+	prev := 0
+	for k := 0; k <= ncut; k++ {
+		next := len(wire)
+		if k < ncut {
+			next = prev + verif.Choose("cut", len(wire)-prev+1)
+		}
+		if next > prev {
+			rb.Write(wire[prev:next])
+			sc.Dispatch(rb)
+			// after each read: exactly the frames that are complete so far were handed over
+			want := 0
+			for _, e := range ends {
+				if e <= next {
+					want++
+				}
+			}
+			verif.Assert(len(srv.got) == want, "the requests handed over after a read are not exactly the complete frames received so far")
+		}
+		prev = next
+	}
+	verif.Assert(rb.Len() == 0, "bytes of complete frames left in the read buffer")
+	verif.Assert(len(srv.got) == nreq, "every complete request frame must give one request")
+	if len(srv.got) != nreq {
+		return
+	}
+	for i, g := range srv.got {
+		x, ok := g.header.(api.XFrame)
+		verif.Assert(ok, "receiver did not get a frame")
+		if !ok {
+			return
+		}
+		verif.Assert(uint32(x.GetRequestId()) == reqs[i].id, "a request held by the proxy carries another request's id")
+		v, _ := g.header.Get("service")
+		verif.Assert(v == reqs[i].svc, "a request held by the proxy carries another request's headers")
+		verif.Assert(g.data != nil && string(g.data.Bytes()) == string(reqs[i].body), "a request held by the proxy carries another request's body")
+		sid, err := variable.Get(g.ctx, types.VariableStreamID)
+		verif.Assert(err == nil && sid == uint64(reqs[i].id), "stream context variables belong to another request")
+		for j := 0; j < i; j++ {
+			verif.Assert(srv.got[j].ctx != g.ctx, "two requests share one stream context")
+			verif.Assert(srv.got[j].sender != g.sender, "two requests share one stream object")
+		}
+	}
+	verif.Cover("end")
+}
+
+// VerifC07_DispatchSegmentationV2: the same for boltv2 frames.
+func VerifC07_DispatchSegmentationV2() {
+	proto := (&boltv2.XCodec{}).NewXProtocol(zzStreamCtx())
+	zzDispatchRun(proto, boltv2.ProtocolName, func(id uint32, svc string, body []byte) api.XFrame {
+		return boltv2.NewRpcRequest(id, zzHdr{"service": svc}, buffer.NewIoBufferBytes(body))
+	}, 2, 1)
+}
+
+// VerifC07_DispatchThreeReads: two (thorough: three) bolt requests delivered
+// in up to three reads (two cuts anywhere); after every read exactly the
+// frames complete so far have been handed to the proxy.
+func VerifC07_DispatchThreeReads() {
+	proto := (&bolt.XCodec{}).NewXProtocol(zzStreamCtx())
+	zzDispatchRun(proto, bolt.ProtocolName, func(id uint32, svc string, body []byte) api.XFrame {
+		return bolt.NewRpcRequest(id, zzHdr{"service": svc}, buffer.NewIoBufferBytes(body))
+	}, 2, 2)
+}
+
+func VerifC07_DispatchThreeReads_T() {
+	proto := (&bolt.XCodec{}).NewXProtocol(zzStreamCtx())
+	zzDispatchRun(proto, bolt.ProtocolName, func(id uint32, svc string, body []byte) api.XFrame {
+		return bolt.NewRpcRequest(id, zzHdr{"service": svc}, buffer.NewIoBufferBytes(body))
+	}, 3, 2)
+}
